@@ -242,8 +242,13 @@ theorem stripLine_of_lt (d : Nat) (l : Bytes) (h : lead l < d) : stripLine d l =
   have : ¬ d ≤ lead l := by omega
   simp [stripLine, stripPrefix_replicate, this]
 
-theorem removeIndent_eq (d : Nat) (src : Bytes) :
-    removeIndent d src = joinNL ((splitNL src).map (stripLine d)) := rfl
+/-- `remove_indent` on a text given by its lines: line 0 is kept, the others are stripped -/
+theorem removeIndent_lines (d : Nat) (l₀ : Bytes) (ls : List Bytes)
+    (hnl : ∀ l ∈ l₀ :: ls, NL ∉ l) :
+    removeIndent d (joinNL (l₀ :: ls)) = joinNL (l₀ :: ls.map (stripLine d)) := by
+  unfold removeIndent
+  simp only [splitNL_joinNL l₀ ls hnl]
+  rfl
 
 theorem indentLinesImpl_eq (d : Nat) (l₀ : Bytes) (ls : List Bytes) :
     indentLinesImpl d (l₀ :: ls) = joinNL (l₀ :: ls.map (List.replicate d SP ++ ·)) := by
@@ -552,8 +557,7 @@ theorem indentLines_multi_zero (n : Nat) (x : Bytes) :
 
 /-- line-level statement of the shift performed by `indent_lines` (see `C07.indentLines_shift`) -/
 theorem indentLines_shift_lines (orig new : Nat) (l₀ : Bytes) (ls : List Bytes)
-    (hnl : ∀ l ∈ l₀ :: ls, NL ∉ l) (hw : ∀ l ∈ ls, orig ≤ lead l)
-    (hf : orig ≤ new ∨ lead l₀ < orig - new) :
+    (hnl : ∀ l ∈ l₀ :: ls, NL ∉ l) (hw : ∀ l ∈ ls, orig ≤ lead l) :
     indentLines new (.multiLine (joinNL (l₀ :: ls)) orig) =
       joinNL (l₀ :: ls.map (reindent orig new)) := by
   unfold indentLines
@@ -566,12 +570,7 @@ theorem indentLines_shift_lines (orig new : Nat) (l₀ : Bytes) (ls : List Bytes
     · intro l hl; exact reindent_self _ _ (hw l hl)
   · by_cases hgt : orig > new
     · simp only [heq, hgt, ↓reduceIte]
-      rw [removeIndent_eq, splitNL_joinNL l₀ ls hnl, List.map_cons]
-      have h0 : stripLine (orig - new) l₀ = l₀ := by
-        rcases hf with h | h
-        · omega
-        · exact stripLine_of_lt _ _ h
-      rw [h0]
+      rw [removeIndent_lines _ l₀ ls hnl]
       congr 2
       apply List.map_congr_left
       intro l hl
@@ -588,6 +587,5 @@ theorem indentLines_shift_lines (orig new : Nat) (l₀ : Bytes) (ls : List Bytes
       rw [← reindent_eq orig new l hle]
       have : orig - new = 0 := by omega
       simp [this]
-
 
 end AGV
